@@ -747,7 +747,7 @@ class Vars:
         return out
 
 
-def run_scenario(scenario, modules, extra_patch=None, timeout_ms=20000, max_paths=20000, tol=1e-9, known=None):
+def run_scenario(scenario, modules, extra_patch=None, timeout_ms=20000, max_paths=20000, tol=1e-9, known=None, patch_names=("round", "float", "int", "str")):
     """scenario(V) -> dict name -> obligation (SymBool/bool) ; names starting with '_' are observations, 'twin:' entries are
     reachability witnesses (must be satisfiable on some path).
     Returns list of dict(name, verdict, secs, paths, model, replayed, detail)."""
@@ -761,7 +761,7 @@ def run_scenario(scenario, modules, extra_patch=None, timeout_ms=20000, max_path
         vars_box["V"] = V
         with contextlib.ExitStack() as st:
             for m in modules:
-                st.enter_context(patched(m, extra=(extra_patch or {}).get(m.__name__)))
+                st.enter_context(patched(m, names=patch_names, extra=(extra_patch or {}).get(m.__name__)))
             try:
                 res = scenario(V)
             except (Inconclusive, PathInfeasible):
